@@ -37,6 +37,13 @@ Theorem C16_terminated_same_positions : forall input off,
   (off <= length input)%nat -> linecol (terminated input) off = linecol input off.
 Proof. exact linecol_terminated. Qed.
 
+(* the recursion fuel of the model never runs out, on any text (accepted, rejected or excluded): [Parse] is the
+   model of yang.Parse on every input, so T1 and T2 speak about every run.  (The rune 0x7fffffff is the
+   lexer's end-of-file sentinel; UTF-8 decoding never produces it.) *)
+Theorem C16_model_fuel_sufficient : forall input ss es o,
+  ~ In EOFR input -> Parse input = (ss, es, o) -> o = false.
+Proof. exact Parse_fuel_sufficient. Qed.
+
 (* non-vacuity: an accepted text with a comment, tabs, a multi-byte rune and a line break before the
    statements (slash star x star slash TAB a TAB brace LF space e-acute space quote q quote semicolon
    brace), and a rejected text with two positioned errors (invalid escape at 1:5, a closing brace at 2:2
